@@ -5,6 +5,7 @@ CONSTANTS
   Concurrent = TRUE
   ScanAtomic = FALSE
   StopWhenSettled = FALSE
+  Overlap = "never"
   Emit = FALSE
 INVARIANTS Safety
 VIEW MCView
